@@ -78,6 +78,7 @@ def conc_check(sg, occ, vals, orig_order, supercell=False):
     at = Atoms(numbers=nums, scaled_positions=pos, cell=np.array(S.std_lattice(sg), dtype=float), pbc=True)
     if supercell:
         at = at.repeat((2, 1, 1))
+        at = at[S.supercell_perm(len(at) // 2, supercell)]
         nums = list(at.get_atomic_numbers())
     msgs = []
     try:
@@ -106,8 +107,8 @@ def make_fn(sg, occs):
     def fn(e):
         occ = e.pick(occs)
         n = sum(len(S.orbit(sg, l)) for l, _ in occ)
-        orig_order = None if n < 2 else e.pick([None, list(range(n))[::-1], "supercell"])
-        sup = orig_order == "supercell"
+        orig_order = None if n < 2 else e.pick([None, list(range(n))[::-1], "supercell", "interleaved"])
+        sup = {"supercell": True, "interleaved": "interleaved"}.get(orig_order if isinstance(orig_order, str) else None, False)
         orig_order = None if sup else orig_order
         ds = S.make_dataset(e, sg, occ, orig_order=orig_order, orig_supercell=sup)
         ses = S.Session([ds])
@@ -198,7 +199,7 @@ def make_fn(sg, occs):
                                                                  trip["conventional"][0], orig_order=orig_order))
         e.reach(f"H12:centring:{S.make_dataset.__name__ and __import__('spglib').get_spacegroup_type(RG.std_hall(sg)).international_short[0]}")
         e.reach("H12:supercell-original" if sup else "H12:cell-original")
-        e.sample({"space_group": sg, "occupation": occ, "orig_order": "2x1x1 supercell" if sup else ("reversed" if orig_order else "as standardized"), "primitive_vectors": [[str(v) for v in r] for r in Pq]})
+        e.sample({"space_group": sg, "occupation": occ, "orig_order": ("2x1x1 supercell" + (", copies interleaved" if sup == "interleaved" else "")) if sup else ("reversed" if orig_order else "as standardized"), "primitive_vectors": [[str(v) for v in r] for r in Pq]})
     return fn
 
 
